@@ -107,6 +107,9 @@ func checkView(v RawView, e *respExpect, rootMissing bool, exact bool) (sig, wha
 			}
 		}
 		for c := range v.Blocks[k] {
+			if !allowed[c] && k < len(v.OtherLinks) && v.OtherLinks[k][c] {
+				continue // the message also carries another request's response that names this link: the block may be there for it
+			}
 			if !allowed[c] {
 				return "C03/block-not-allowed", fmt.Sprintf("block %s is on the wire but the rule excludes it in this message (skip %d, ignore-listed %v, already sent in scope %v)", c, e.Skip, e.Ignore[c], e.Already[c])
 			}
